@@ -17,7 +17,7 @@ class C07(EngineProp):
     design_ref = '§5 C07'
     rule = ('scripts of 6..30 groups of 1..3 stimuli (local API calls, application publisher/future signals, protocol-legal peer frames incl. in-flight frames after a local '
             'cancel, connection loss by EOF or transport error) chosen adaptively from what is enabled, both roles; every entry point (API call, received frame, done-callback, loss) '
-            'is logged in execution order and replayed on the Lean engine model; non-trivial = at least 4 entry points and one stream object; distinct = distinct entry-point sequence')
+            'is logged in execution order and replayed on the Lean engine model; non-trivial = at least 4 entry points and one stream object; distinct = distinct entry-point sequence; plus the signal grammar at the subscribers of the library sources, and the TCP teardown scenarios of C11 (requests issued inside on_error / on_close or on an endpoint whose connection is already lost) judged for resolved-exactly-once')
     assumptions = ['the peer is protocol-legal and the application obeys reactive-streams (no signal after its own terminal)']
 
     # -- the library's own publishers drive a subscriber too (the handler's StreamSubscriber, or any subscriber attached to them) ----------
